@@ -265,7 +265,8 @@ def expected_operator_effect(code, y, dirty, consts):
         emits = [('process_constant', 0)]
         if y == 0:
             ch['next_bitmapped_descriptor'] = '*'
-        elif dirty['most_recent_bitmap_is_for_reuse'] == 'True':
+        else:
+            # cancels the bitmap defined for reuse - whether or not another bitmap (not for reuse) has been built since
             ch['bitmap'] = 'None'
     return ch, emits
 
